@@ -22,6 +22,10 @@ static Rotation rrot(vh::Rng& g, double maxAngle) {
     return Rotation(g.range(-maxAngle, maxAngle), UnitVec3(ax));
 }
 static void putV(vh::Line& l, const Vec3& v) { l.d(v[0]).d(v[1]).d(v[2]); }
+// identity of the case being generated: goes into every I record so that --mode replay rebuilds and RE-RUNS it
+static long long gSeed = 1, gCase = 0;
+static int gReached = 0;       // set when the case got as far as its result predicates (reported to the parent through the exit code)
+static vh::Line Irec(const char* fn) { vh::Line l = vh::I(fn); l.i(gSeed).i(gCase); return l; }
 
 struct Model {
     MultibodySystem system; SimbodyMatterSubsystem matter; GeneralForceSubsystem forces;
@@ -72,7 +76,7 @@ struct Rep : public EventReporter {
 
 static void freeqRecord(const Assembler& asmb, const State& s, const std::vector<int>& lockedList, const std::vector<std::array<double, 3> >& ranges) {
     int nq = s.getNQ();
-    vh::Line in = vh::I("freeq"); in.i(nq).i((long)lockedList.size());
+    vh::Line in = Irec("freeq"); in.i(nq).i((long)lockedList.size());
     for (int q : lockedList) in.i(q);
     in.i((long)ranges.size());
     for (auto& r : ranges) { in.i((long)r[0]); in.d(r[1]).d(r[2]); }
@@ -92,17 +96,23 @@ static int asmCase(vh::Rng& g, bool thorough) {
     buildTree(g, M, nb);
     // prescribed motion on a pin/slider (sinusoid in position)
     int presBody = -1; double presA = 0, presPhi = 0;
-    if (g.below(6) == 0) for (int b = 1; b <= nb; ++b) if (M.mtype[b] <= 1) { presBody = b; break; }
+    // dedicated class (review C43-M1): loop constraint satisfied at a state whose prescribed q is OFF its prescribed value, start =
+    // that state (feasible), goal with a wrong-sign gradient so that the optimizer tends to return a worse goal -> revert branch
+    // after prescribeQ has already moved the prescribed q
+    const bool revertPres = g.below(12) == 0;
+    if (revertPres || g.below(6) == 0) for (int b = 1; b <= nb; ++b) if (M.mtype[b] <= 1) { presBody = b; break; }
+    const double presOffVal = g.signedMag(0.1, 0.4);
     if (presBody > 0) { presA = g.range(0.2, 0.6); presPhi = g.range(-1, 1); Motion::Sinusoid(M.mob[presBody], Motion::Position, presA, 1.3, presPhi); }
     M.system.realizeTopology();
     State ref = M.system.getDefaultState();
     M.matter.setUseEulerAngles(ref, true); M.system.realizeModel(ref);
     const int nq = ref.getNQ();
     for (int i = 0; i < nq; ++i) ref.updQ()[i] = g.range(-0.7, 0.7);
-    if (presBody > 0) ref.updQ()[(int)M.mob[presBody].getFirstQIndex(ref)] = presA * std::sin(presPhi);
+    const bool special = revertPres && presBody > 0;
+    if (presBody > 0) ref.updQ()[(int)M.mob[presBody].getFirstQIndex(ref)] = presA * std::sin(presPhi) + (special ? presOffVal : 0.0);
     M.system.realize(ref, Stage::Position);
     // loop constraint satisfied at the reference configuration
-    bool loop = nb >= 2 && g.below(10) < 4; std::string tag;
+    bool loop = nb >= 2 && (special || g.below(10) < 4); std::string tag;
     if (loop) {
         int b = nb; Vec3 st = rvec(g, 0.4); Vec3 pG = M.mob[b].findStationLocationInGround(ref, st);
         int other = g.below(3) == 0 && nb >= 3 ? 1 : 0;
@@ -116,11 +126,10 @@ static int asmCase(vh::Rng& g, bool thorough) {
     Assembler asmb(M.system);
     double tol = (g.below(3) == 0) ? 1e-4 : (g.coin() ? 1e-6 : 1e-8);
     asmb.setErrorTolerance(tol);
-    const bool tightAcc = g.coin();
-    if (tightAcc) asmb.setAccuracy(1e-6);
+    bool tightAcc = g.coin();
     if (g.below(5) == 0) asmb.setUseRMSErrorNorm(true);
     bool exact = true;
-    const bool hostile = !loop && g.below(8) == 0;
+    const bool hostile = special || g.below(8) == 0;
     Markers* markers = nullptr; OrientationSensors* osens = nullptr; double gwM = 1, gwO = 1;
     std::vector<std::tuple<int, Vec3, double> > mk; Array_<Vec3> obs;
     if (!hostile && g.below(10) < 8) {
@@ -144,16 +153,21 @@ static int asmCase(vh::Rng& g, bool thorough) {
         if (os.empty()) { delete osens; osens = nullptr; }
         else { gwO = g.coin() ? 1.0 : g.range(0.5, 4); asmb.adoptAssemblyGoal(osens, gwO); tag += ".osensors"; }
     }
-    if (hostile) { asmb.adoptAssemblyGoal(new HostileGoal(ref.getQ()), 1.0); tag += ".hostileGradient"; exact = false; }
+    Vector hostileTarget = ref.getQ(); if (hostile) for (int i = 0; i < nq; ++i) hostileTarget[i] += g.range(-0.3, 0.3);
+    if (hostile) { asmb.adoptAssemblyGoal(new HostileGoal(hostileTarget), 1.0); tag += ".hostileGradient"; exact = false; }
     // start state
-    State start = ref; double pert = g.below(5) == 0 ? 0.0 : g.range(0.02, 0.35);
+    State start = ref; double pert = (g.below(5) == 0 || (hostile && loop)) ? 0.0 : g.range(0.02, 0.35);
     for (int i = 0; i < nq; ++i) start.updQ()[i] = ref.getQ()[i] + g.range(-pert, pert);
-    if (presBody > 0) start.updQ()[(int)M.mob[presBody].getFirstQIndex(ref)] = presA * std::sin(presPhi);
+    // the incoming state need not have the prescribed q at its prescribed value: assemble() must put it there (prescribeQ)
+    const bool presOff = presBody > 0 && (special || g.coin());
+    if (presBody > 0) start.updQ()[(int)M.mob[presBody].getFirstQIndex(ref)] = presA * std::sin(presPhi) + (presOff ? presOffVal : 0.0);
+    if (special) tag += ".revertPrescribedClass";
+    std::vector<double> expectQ(nq, NaN);       // value a locked / prescribed q must have afterwards
     // locks and ranges
     std::vector<int> kind(nq, 0); std::vector<double> lo(nq, -Infinity), hi(nq, Infinity);
     std::vector<int> lockedList; std::vector<std::array<double, 3> > ranges;
-    if (presBody > 0) { int q0 = (int)M.mob[presBody].getFirstQIndex(ref); kind[q0] = 1; lockedList.push_back(q0); tag += ".prescribed"; }
-    if (g.below(10) < 3) { int b = 1 + g.below(nb); bool keepRef = g.coin();
+    if (presBody > 0) { int q0 = (int)M.mob[presBody].getFirstQIndex(ref); kind[q0] = 1; lockedList.push_back(q0); tag += presOff ? ".prescribedOff" : ".prescribed"; expectQ[q0] = presA * std::sin(presPhi); }
+    if (!special && g.below(10) < 3) { int b = 1 + g.below(nb); bool keepRef = g.coin();
         asmb.lockMobilizer(M.mob[b].getMobilizedBodyIndex());
         int q0 = (int)M.mob[b].getFirstQIndex(ref), n = M.mob[b].getNumQ(ref);
         for (int i = 0; i < n; ++i) { if (kind[q0 + i] != 1) lockedList.push_back(q0 + i); kind[q0 + i] = 1; if (keepRef) start.updQ()[q0 + i] = ref.getQ()[q0 + i]; else if (pert > 0) exact = false; }
@@ -171,7 +185,9 @@ static int asmCase(vh::Rng& g, bool thorough) {
         if (kind[q] == 0) { kind[q] = 2; lo[q] = l; hi[q] = h; if (excl) exact = false; }
         tag += excl ? ".rangeExcl" : ".range"; }
     std::sort(lockedList.begin(), lockedList.end());
-    int mode = (hostile || g.below(10) < 7) ? 0 : 1;
+    if (exact) tightAcc = true;      // the exact-goal claim is always made at accuracy 1e-6 (1e-7 on the goal), never at the loose default
+    if (tightAcc) asmb.setAccuracy(1e-6);
+    int mode = (hostile || presOff || g.below(10) < 7) ? 0 : 1;
     Rep rep; rep.a = &asmb; asmb.addReporter(rep);
     try {
         asmb.setInternalState(start);
@@ -193,24 +209,30 @@ static int asmCase(vh::Rng& g, bool thorough) {
         // what the decision logic saw after the optimizer: the last report (made right after the optimizer's result was put
         // into the internal state, before any revert), or, when an exception left early, the state left in the Assembler
         std::pair<double, double> post = (threw || seen.empty()) ? std::make_pair(finalErr, finalGoal) : seen.back();
-        vh::Line in = vh::I("asm"); in.i(mode).i(asmb.isUsingRMSErrorNorm()).i((long)seen.size()).i(nq).d(tol).d(initErr).d(initGoal);
+        vh::Line in = Irec("asm"); in.i(mode).i(asmb.isUsingRMSErrorNorm()).i((long)seen.size()).i(nq).d(tol).d(initErr).d(initGoal);
         in.d(post.first).d(post.second);
         in.i(threw).d(threw ? 0.0 : ret).d(finalErr).d(finalGoal);
-        for (int i = 0; i < nq; ++i) in.i(kind[i]).d(lo[i]).d(hi[i]).d(start.getQ()[i]).d(out.getQ()[i]);
+        for (int i = 0; i < nq; ++i) in.i(kind[i]).d(lo[i]).d(hi[i]).d(kind[i] == 1 && !std::isnan(expectQ[i]) ? expectQ[i] : start.getQ()[i]).d(out.getQ()[i]);
         in.emit();
         vh::Line o = vh::O("asm"); o.i(threw ? 0 : 1).d(threw ? 0.0 : ret).i(1); o.emit();
         const std::string key = std::string(mode == 0 ? "assemble" : "track");
+        const bool reverted = !threw && mode == 0 && seen.size() > 1 && initErr <= tol && post.second > initGoal;
+        if (reverted) vh::D("assemble.REVERTED");
         vh::D(key + "." + tag + (threw ? ".FAILED" : ".ok") + (exact ? ".exact" : ".inexact"));
+        if (!threw) gReached = 1;
         if (!threw) {
             // --- the property's predicates on the returned state, recomputed independently of the Assembler
             M.system.realize(out, Stage::Position);
             double qerr = 0; for (int i = 0; i < out.getNQErr(); ++i) qerr = std::max(qerr, std::fabs(out.getQErr()[i]));
             if (asmb.isUsingRMSErrorNorm() && out.getNQErr() > 0) { double s2 = 0; for (int i = 0; i < out.getNQErr(); ++i) s2 += square(out.getQErr()[i]); qerr = std::sqrt(s2 / out.getNQErr()); }
-            vh::P("constraints_within_tolerance", key + ".qerr", qerr, tol * (1 + 1e-9));
+            vh::P("constraints_within_tolerance", (reverted && presOff) ? std::string("assemble.revert.prescribed.qerr") : key + ".qerr", qerr, tol * (1 + 1e-9));
             double lockDev = 0, rangeDev = 0;
-            for (int i = 0; i < nq; ++i) { if (kind[i] == 1) lockDev = std::max(lockDev, std::fabs(out.getQ()[i] - start.getQ()[i]));
+            for (int i = 0; i < nq; ++i) { if (kind[i] == 1) lockDev = std::max(lockDev, std::fabs(out.getQ()[i] - (std::isnan(expectQ[i]) ? start.getQ()[i] : expectQ[i])));
                                            if (kind[i] == 2) rangeDev = std::max(rangeDev, std::max(lo[i] - out.getQ()[i], out.getQ()[i] - hi[i])); }
-            vh::P("locked_and_prescribed_q_unchanged", key + ".locked", lockDev, 0);
+            // a short circuit returns before prescribeQ: with the incoming prescribed q off its value, success is reported with the
+            // prescribed motion unsatisfied (own key)
+            const bool shortCircuit = seen.size() == 1 && mode == 0;
+            vh::P("locked_and_prescribed_q_unchanged", (presOff && shortCircuit) ? std::string("assemble.shortcircuit.prescribed") : key + ".locked", lockDev, 0);
             vh::P("q_ranges_respected", key + ".range", rangeDev, 1.0000001e-8);     // IPOPT / L-BFGS-B keep iterates within the (1e-8 relaxed) limits
             vh::P("returned_goal_is_goal_of_state", key + ".goaltruth", std::fabs(ret - finalGoal), 0);
             if (initErr <= tol) vh::P("goal_not_worse_than_start", key + ".notworse", ret - initGoal, mode == 0 ? 0.0 : 1e-12 * (1 + initGoal));
@@ -219,11 +241,11 @@ static int asmCase(vh::Rng& g, bool thorough) {
             if (exact && (markers || osens)) { if (pert <= 0.12) vh::P("exact_goal_reaches_zero", key + (loop ? ".loop" : ".tree") + ".exactgoal", ret, tightAcc ? 1e-7 : 1e-4);
                                                else vh::D(key + ".exactgoal.farStart.reached=" + (ret <= 1e-4 ? "yes" : "no")); }
             // goal algebra records at the returned state
-            if (markers) { vh::Line gi = vh::I("goal"); gi.d(gwM); int n = 0; for (size_t i = 0; i < mk.size(); ++i) if (std::get<2>(mk[i]) > 0) ++n; gi.i(n);
+            if (markers) { vh::Line gi = Irec("goal"); gi.d(gwM); int n = 0; for (size_t i = 0; i < mk.size(); ++i) if (std::get<2>(mk[i]) > 0) ++n; gi.i(n);
                 for (size_t i = 0; i < mk.size(); ++i) { if (!(std::get<2>(mk[i]) > 0)) continue; gi.d(std::get<2>(mk[i])); putV(gi, M.mob[std::get<0>(mk[i])].findStationLocationInGround(out, std::get<1>(mk[i]))); putV(gi, obs[(int)i]); }
                 gi.emit(); Real gv; markers->calcGoal(asmb.getInternalState(), gv); vh::O("goal").d(gwM * gv).emit(); vh::D("goal.markers");
                 vh::P("markers_goal_nonnegative", "goal.nonneg", -gv, 0); }
-            if (osens) { vh::Line gi = vh::I("osgoal"); gi.d(gwO).i((long)os.size());
+            if (osens) { vh::Line gi = Irec("osgoal"); gi.d(gwO).i((long)os.size());
                 for (size_t i = 0; i < os.size(); ++i) { Rotation R_GS = M.mob[std::get<0>(os[i])].getBodyRotation(out) * std::get<1>(os[i]); Rotation R_SO = ~R_GS * oobs[(int)i];
                     gi.d(std::get<2>(os[i])).d(R_SO.convertRotationToAngleAxis()[0]); }
                 gi.emit(); Real gv; osens->calcGoal(asmb.getInternalState(), gv); vh::O("osgoal").d(gwO * gv).emit(); vh::D("goal.osensors"); }
@@ -232,34 +254,56 @@ static int asmCase(vh::Rng& g, bool thorough) {
     return 0;
 }
 
+// loop constraint (ball or rod) satisfied at `ref`; returns the re-realized reference state of the changed system
+static State addLoop(vh::Rng& g, Model& M, int nb, const State& ref, std::string& tag) {
+    int b = nb; Vec3 st = rvec(g, 0.4); Vec3 pG = M.mob[b].findStationLocationInGround(ref, st);
+    if (g.coin()) { Constraint::Ball(M.mob[0], pG, M.mob[b], st); tag += ".ball"; }
+    else { Constraint::Rod(M.mob[0], pG + Vec3(0.3, 0.4, 0), M.mob[b], st, 0.5); tag += ".rod"; }
+    M.system.realizeTopology();
+    State r2 = M.system.getDefaultState(); M.matter.setUseEulerAngles(r2, true); M.system.realizeModel(r2);
+    r2.updQ() = ref.getQ(); M.system.realize(r2, Stage::Position);
+    return r2;
+}
+static double qerrInf(const Model& M, State& s) { M.system.realize(s, Stage::Position); double e = 0; for (int i = 0; i < s.getNQErr(); ++i) e = std::max(e, std::fabs(s.getQErr()[i])); return e; }
+
 static int opfCase(vh::Rng& g) {
     Model M; int nb = 2 + g.below(3); buildTree(g, M, nb);
     M.system.realizeTopology();
-    State ref = M.system.getDefaultState(); M.system.realizeModel(ref);
-    State tmp = ref; M.matter.setUseEulerAngles(tmp, true); M.system.realizeModel(tmp);
+    State tmp = M.system.getDefaultState(); M.matter.setUseEulerAngles(tmp, true); M.system.realizeModel(tmp);
     for (int i = 0; i < tmp.getNQ(); ++i) tmp.updQ()[i] = g.range(-0.6, 0.6);
     M.system.realize(tmp, Stage::Position);
+    std::string tag = "opf";
+    const bool loop = g.below(10) < 4; if (loop) tmp = addLoop(g, M, nb, tmp, tag);
     Array_<MobilizedBodyIndex> ix; Array_<Array_<Vec3> > st, tg; Array_<Array_<Real> > wt;
     bool noisy = g.below(3) == 0;
     for (int b = 1; b <= nb; ++b) { ix.push_back(M.mob[b].getMobilizedBodyIndex()); Array_<Vec3> s, t; Array_<Real> w; int k = 3 + g.below(2);
         for (int j = 0; j < k; ++j) { Vec3 p = rvec(g, 0.5); s.push_back(p); Vec3 o = M.mob[b].findStationLocationInGround(tmp, p); if (noisy) o += rvec(g, 0.03); t.push_back(o); w.push_back(g.coin() ? 1.0 : g.range(0.3, 2)); }
         st.push_back(s); tg.push_back(t); wt.push_back(w); }
-    State s = M.system.getDefaultState(); M.system.realizeModel(s);
+    // start near the reference for loop systems (the fitter is a local method), at the default configuration for trees
+    State s = tmp; if (!loop) { s = M.system.getDefaultState(); M.matter.setUseEulerAngles(s, true); M.system.realizeModel(s); }
+    else for (int i = 0; i < s.getNQ(); ++i) s.updQ()[i] += g.range(-0.05, 0.05);
+    // a mobilizer locked in the state (Motion lock): "locked coordinates keep their values"
+    int lockB = g.below(10) < 3 ? 1 + g.below(nb) : -1; Vector qLocked;
+    if (lockB > 0) { s.updQ()(M.mob[lockB].getFirstQIndex(s), M.mob[lockB].getNumQ(s)) = tmp.getQ()(M.mob[lockB].getFirstQIndex(s), M.mob[lockB].getNumQ(s));
+                     M.mob[lockB].lock(s); qLocked = M.mob[lockB].getQAsVector(s); tag += ".lockedMobod"; }
     try {
         double tolr = 1e-6;
         double r = ObservedPointFitter::findBestFit(M.system, s, ix, st, tg, wt, tolr);
         M.system.realize(s, Stage::Position);
-        vh::Line in = vh::I("opf"); int n = 0; for (auto& a : st) n += a.size(); in.i(n);
+        vh::Line in = Irec("opf"); int n = 0; for (auto& a : st) n += a.size(); in.i(n);
         double sw = 0, swd = 0;
         for (int i = 0; i < (int)ix.size(); ++i) for (int j = 0; j < (int)st[i].size(); ++j) { Vec3 p = M.matter.getMobilizedBody(ix[i]).findStationLocationInGround(s, st[i][j]);
             in.d(wt[i][j]); putV(in, p); putV(in, tg[i][j]); sw += wt[i][j]; swd += wt[i][j] * (p - tg[i][j]).normSqr(); }
         in.emit();
         std::printf("T 1e-6 2e-7\n");       // the implementation returns sqrt((x+1)-1): absolute accuracy ~ sqrt(eps)
         vh::O("opf").d(r).emit();
-        vh::D(std::string("opf.") + (noisy ? "noisy" : "exact"));
+        vh::D(tag + (noisy ? ".noisy" : ".exact")); gReached = 1;
         vh::P("returned_error_is_rms_of_state", "opf.truth", std::fabs(r - std::sqrt(swd / sw)), 2e-7);
-        if (!noisy) vh::P("exact_targets_fit", "opf.exact", r, 1e-3);
-    } catch (const std::exception&) { vh::D("opf.EXC"); }
+        if (!noisy && lockB < 0) vh::P("exact_targets_fit", loop ? "opf.loop.exact" : "opf.exact", r, 1e-3);
+        if (loop) vh::P("constraints_within_tolerance", "opf.qerr", qerrInf(M, s), 1.000001e-4);     // Optimizer default constraint tolerance
+        if (lockB > 0) { Vector q1 = M.mob[lockB].getQAsVector(s); double dev = 0; for (int i = 0; i < q1.size(); ++i) dev = std::max(dev, std::fabs(q1[i] - qLocked[i]));
+                         vh::P("locked_q_unchanged", "opf.locked", dev, 0); }
+    } catch (const std::exception&) { vh::D(tag + ".EXC"); }
     return 0;
 }
 
@@ -271,52 +315,96 @@ static int lemCase(vh::Rng& g) {
     State s = M.system.getDefaultState();
     M.matter.setUseEulerAngles(s, true); M.system.realizeModel(s);
     for (int i = 0; i < s.getNQ(); ++i) s.updQ()[i] = g.range(-0.5, 0.5);
+    M.system.realize(s, Stage::Position);
+    std::string tag = "lem";
+    const bool loop = g.below(10) < 4; if (loop) s = addLoop(g, M, nb, s, tag);      // the start satisfies the loop constraint
+    int lockB = g.below(10) < 3 ? 1 + g.below(nb) : -1; Vector qLocked;
+    if (lockB > 0) { M.mob[lockB].lock(s); qLocked = M.mob[lockB].getQAsVector(s); tag += ".lockedMobod"; }
     M.system.realize(s, Stage::Dynamics);
     double pe0 = M.system.calcPotentialEnergy(s);
     try {
         LocalEnergyMinimizer::minimizeEnergy(M.system, s, 1e-4);
         M.system.realize(s, Stage::Dynamics);
         double pe1 = M.system.calcPotentialEnergy(s);
-        vh::I("lem").d(pe0).d(pe1).emit(); vh::O("lem").i(1).emit();
-        vh::D("lem.ok");
-        vh::P("energy_not_increased", "lem.pe", pe1 - pe0, 1e-12 * (1 + std::fabs(pe0)));
-    } catch (const std::exception&) { vh::D("lem.EXC"); }
+        Irec("lem").i(loop).d(pe0).d(pe1).emit(); vh::O("lem").i(1).emit();
+        vh::D(tag + ".ok"); gReached = 1;
+        vh::P("energy_not_increased", loop ? "lem.loop.pe" : "lem.pe", pe1 - pe0, (loop ? 1e-6 : 1e-12) * (1 + std::fabs(pe0)));
+        if (loop) vh::P("constraints_within_tolerance", "lem.qerr", qerrInf(M, s), 1.000001e-4);
+        if (lockB > 0) { Vector q1 = M.mob[lockB].getQAsVector(s); double dev = 0; for (int i = 0; i < q1.size(); ++i) dev = std::max(dev, std::fabs(q1[i] - qLocked[i]));
+                         vh::P("locked_q_unchanged", "lem.locked", dev, 0); }
+    } catch (const std::exception&) { vh::D(tag + ".EXC"); }
     return 0;
 }
 
-static void replay() {
-    static char buf[1 << 20];
-    while (std::fgets(buf, sizeof buf, stdin)) { if (buf[0] == 'I' || buf[0] == 'O' || buf[0] == 'T') std::fputs(buf, stdout); }
+// Markers whose every observation is NaN ("ignored"): documented as skipped; calcGoal then divides 0 by 0
+static int nanCase() {
+    Model M; vh::Rng g(7); buildTree(g, M, 2); M.system.realizeTopology();
+    State s = M.system.getDefaultState(); M.system.realizeModel(s);
+    Assembler asmb(M.system); Markers* mk = new Markers(); mk->addMarker(M.mob[1].getMobilizedBodyIndex(), Vec3(0.1, 0, 0), 1.0);
+    asmb.adoptAssemblyGoal(mk); asmb.setInternalState(s); asmb.initialize();
+    Array_<Vec3> obs; obs.push_back(Vec3(NaN)); mk->moveAllObservations(obs);
+    double bad = 0; try { double gv = asmb.calcCurrentGoal(); if (!(gv >= 0)) bad = 1; } catch (const std::exception&) { bad = 1; }
+    Irec("lem").i(0).d(0.0).d(0.0).emit(); vh::O("lem").i(1).emit(); vh::D("markers.allNaN"); gReached = 1;
+    vh::P("all_observations_ignored_goal_is_finite", "markers.allNaN.goal", bad, 0);
+    return 0;
 }
 
 // every case runs in a forked child with a time limit: an Assembler run that sends IPOPT through its 3000 iterations
-// (about a minute) is not a property violation, it just may not eat the quick tier's budget
+// (about a minute) is not a property violation, it just may not eat the quick tier's budget.  The child's exit code tells
+// the parent whether the case reached its result predicates (floors, X1).
 #include <sys/wait.h>
 #include <unistd.h>
 #include <signal.h>
-template <class F> static void guarded(double limitSec, const char* what, F f) {
+static long gTot[4] = {0, 0, 0, 0}, gGot[4] = {0, 0, 0, 0}, gTimeLimit = 0;
+template <class F> static void guarded(double limitSec, int cls, const char* what, F f) {
     std::fflush(stdout);
+    gTot[cls]++;
     pid_t pid = fork();
-    if (pid == 0) { f(); std::fflush(stdout); _exit(0); }
+    if (pid == 0) { gReached = 0; f(); std::fflush(stdout); _exit(gReached ? 0 : 3); }
     if (pid < 0) { f(); return; }
     double waited = 0; int status = 0;
     while (waitpid(pid, &status, WNOHANG) == 0) {
         usleep(2000); waited += 0.002;
-        if (waited > limitSec) { kill(pid, SIGKILL); waitpid(pid, &status, 0); std::printf("D %s.timeLimit\n", what); return; }
+        if (waited > limitSec) { kill(pid, SIGKILL); waitpid(pid, &status, 0); std::printf("D %s.timeLimit\n", what); gTimeLimit++; return; }
     }
-    if (!(WIFEXITED(status) && WEXITSTATUS(status) == 0)) std::printf("P case_does_not_crash %s.crash 1 0\n", what);
+    if (WIFEXITED(status) && WEXITSTATUS(status) == 0) gGot[cls]++;
+    else if (!(WIFEXITED(status) && WEXITSTATUS(status) == 3)) std::printf("P case_does_not_crash %s.crash 1 0\n", what);
+}
+static void oneCase(long long seed, long long k, bool thorough) {
+    gSeed = seed; gCase = k;
+    if (k < 0) { guarded(20, 3, "nan", [&]() { nanCase(); }); return; }
+    vh::Rng g((uint64_t)(seed * 7919 + 43) * 1000003ull + (uint64_t)k);      // independent stream per case: a case is (seed, k)
+    int stream = g.below(10);
+    if (stream < 7) guarded(thorough ? 20 : 6, 0, "asm", [&]() { asmCase(g, thorough); });
+    else if (stream < 8) guarded(20, 1, "opf", [&]() { opfCase(g); });
+    else guarded(20, 2, "lem", [&]() { lemCase(g); });
+}
+// replay RE-RUNS the implementation: every I record carries (seed, case index)
+static void replay() {
+    static char buf[1 << 20]; std::vector<std::pair<long long, long long> > done;
+    while (std::fgets(buf, sizeof buf, stdin)) {
+        std::istringstream is(buf); std::string kind, fn; long long seed, k; is >> kind >> fn >> seed >> k;
+        if (kind != "I" || !is || fn == "floor") continue;
+        if (std::find(done.begin(), done.end(), std::make_pair(seed, k)) != done.end()) continue;
+        done.push_back({seed, k});
+        oneCase(seed, k, false);
+    }
+}
+static void floorP(const char* what, long got, long total, double minShare) {
+    if (total < 8) return;
+    vh::I("floor").s(what).i(total).i(got).emit(); std::printf("O floor 1\n");
+    vh::P("share_of_cases_reaching_result_predicates", std::string("floor.") + what, minShare - (double)got / total, 0.0);
 }
 
 int main(int argc, char** argv) {
     vh::Args args(argc, argv);
     if (args.mode == "replay") { replay(); return 0; }
     bool thorough = args.n > 300;
-    for (long k = 0; k < args.n; ++k) {
-        vh::Rng g((args.seed * 7919 + 43) * 1000003ull + (uint64_t)k);      // independent stream per case
-        int stream = g.below(10);
-        if (stream < 7) guarded(thorough ? 20 : 6, "asm", [&]() { asmCase(g, thorough); });
-        else if (stream < 8) guarded(20, "opf", [&]() { opfCase(g); });
-        else guarded(20, "lem", [&]() { lemCase(g); });
-    }
+    oneCase((long long)args.seed, -1, thorough);            // the all-NaN-observations case, once per run
+    for (long k = 0; k < args.n; ++k) oneCase((long long)args.seed, k, thorough);
+    // floors: measured shares on the clean tree are in notes/C43.md; required is roughly 3/4 of the measured share
+    floorP("asm.reportsSuccess", gGot[0], gTot[0], 0.70);
+    floorP("opf.returns", gGot[1], gTot[1], 0.70);
+    floorP("lem.returns", gGot[2], gTot[2], 0.50);
     return 0;
 }
